@@ -149,6 +149,7 @@ type Enc struct {
 	modsChanged    bool
 	paramVars      []ModelVar
 	preLen         int
+	qn             int
 }
 
 func newEnc(w *World, fn *ssa.Function, c *Contract) *Enc {
